@@ -186,6 +186,12 @@ func (e *executor) prepare(workflow *Workflow, workflowContext map[string][]byte
 				return nil, fmt.Errorf("could not find output id %q in output schema", outputID)
 			}
 			outputSchema = outputSchemaData
+			if outputSchema != nil {
+				// Link the references inside a declared output schema to its own objects, as is done for the input.
+				if declaredScope := outputSchema.Schema(); declaredScope != nil {
+					declaredScope.ApplySelf()
+				}
+			}
 		}
 		outputSchema, err = infer.OutputSchema(
 			outputData,
